@@ -172,6 +172,33 @@ def run(R):
                 R.viol("C02.rebuild.all", "walk-bounded:%s" % (bounded[0].split("::")[-1] if bounded else "walk-missing"),
                        "the start-up scan does not index every file of the storage directory (%s between the directory walk and the index)" % (bounded[0] if bounded else "WalkDir not on the chain"), sb, sb.lines[0])
             R.inst("C02.rebuild.all", "K6 flows-to", "index = every entry of WalkDir(storage_dir) that passes process_entry: no take/skip/depth bound", len(names), ok_all)
+        # ... keeps what it found: a restart removes no record (no trimming to capacity, no eviction at start-up) — the only files a
+        # start may delete are the ones the scan could not decode
+        REMOVE_ = "<ant_networking::record_store::NodeRecordStore as libp2p_kad::record::store::RecordStore>::remove"
+        drops = [(b, c) for b in F.item(WITHCFG) for c in b.calls if (c["ncallee"] or "") in (REMOVE_, NRS + "::prune_records_if_needed", NRS + "::cleanup_irrelevant_records", "std::fs::remove_file")
+                 or (c["ncallee"] or "").endswith(("HashMap::remove", "HashMap::retain", "HashMap::clear", "BTreeMap::remove", "BTreeMap::retain", "BTreeMap::split_off"))]
+        for b, c in drops:
+            R.viol("C02.rebuild.keeps", "restart-removes:%s" % c["ncallee"].split("::")[-1], "with_config calls %s: a restart can drop records whose writes had completed" % c["ncallee"], b, c["line"])
+        R.inst("C02.rebuild.keeps", "K1 forbidden-callee", "with_config removes nothing from the recovered index or the storage directory", len(wc.calls), not drops)
+        # ... and decodes with the same cipher and nonce starter as before the restart: what is handed to the scan and kept in the
+        # store is derive_aes256gcm_siv_from_seed(config.encryption_seed), unmodified (no component overwritten from a clock or a file)
+        DER = RS + "derive_aes256gcm_siv_from_seed"
+        der = call_results([DER])(wc)
+        from flow import whole_uses
+        dcl = set(whole_uses(wc, der)[0]) | set(der)      # the value whole: copies, moves, references — not aggregates it is put into
+        partial = [st for blk in wc.blocks if not blk["cleanup"] for st in blk["stmts"] if len(st["d"]) > 1 and st["d"][0] in dcl and [e for e in st["d"][1:] if e != "*"]]
+        partial += [blk["term"] for blk in wc.blocks if not blk["cleanup"] and blk["term"]["k"] == "call" and len(blk["term"].get("d") or []) > 1 and blk["term"]["d"][0] in dcl]
+        ops_e = agg_field_operands(wc, NRS, "encryption_details")
+        scan_calls = [b for b in wc.blocks if b["term"]["k"] == "call" and not b["cleanup"] and callee_matches(b["term"], [SCAN])]
+        oke = bool(der) and not partial and bool(ops_e) and all(op_local(o) in dcl for _, _, o in ops_e) and bool(scan_calls) and all(any(op_local(a) in dcl for a in b["term"]["args"]) for b in scan_calls)
+        if not oke:
+            R.viol("C02.details.stable", "details-modified", "with_config does not use derive_aes256gcm_siv_from_seed(config.encryption_seed) unmodified for the start-up scan and the store "
+                   "(a component is overwritten, or another value is used): files written before a restart may no longer decrypt after it", wc, wc.lines[0])
+        R.inst("C02.details.stable", "K6 flows-to", "encryption details = derive_aes256gcm_siv_from_seed(seed), unmodified, for both the scan and the store", len(ops_e) + len(scan_calls), oke)
+    # (3a') an acknowledged write is on disk: the completion notice is built only behind the file write's Ok, and always registers
+    # the key (rules of C01, which "keeps completed writes" rests on)
+    import props.C01 as _C01
+    R.import_rules("C01", _C01.run, ["C01.mark-after-write", "C01.mark.", "C01.arm.always", "C01.failed-write"], "C02.persist")
     # (3b) files are touched only by their owning functions, removals delete the file (rules shared with C01)
     from props.C01 import disk_rules, remove_and_mark_rules
     disk_rules(R, "C02.disk")
@@ -287,6 +314,10 @@ def file_rules(R, pfx="C02"):
             nc = t["ncallee"] or ""
             if nc in ("std::fs::write", "std::fs::File::create"):
                 n += 1
+            elif nc == "std::fs::File::create_new":
+                n += 1
+                okw = False
+                R.viol(pfx + ".whole-file", "create-new", "put_verified creates the record file with File::create_new: writing a key whose file exists fails", b, t["l"])
             elif nc == "std::fs::OpenOptions::open":
                 n += 1
                 _, calls = backward_calls(b, op_local(t["args"][0]))
@@ -295,16 +326,22 @@ def file_rules(R, pfx="C02"):
                     cn = (c["ncallee"] or "").split("::")[-1]
                     val = c["args"][1][1] if len(c["args"]) > 1 and c["args"][1][0] == "c" else None
                     names[cn] = val
-                whole = names.get("truncate") == "true" or names.get("create_new") == "true"
+                whole = names.get("truncate") == "true"
                 writes = names.get("write") == "true" or names.get("append") == "true"
-                if writes and not whole:
+                if writes and names.get("create_new") == "true" or nc == "std::fs::File::create_new":
+                    # a record file is overwritten in place (a newer version of a mutable record, a re-put of a chunk whose cache
+                    # entry aged out): create_new fails with AlreadyExists, and the failed-write path then removes the good copy
+                    okw = False
+                    R.viol(pfx + ".whole-file", "create-new", "put_verified opens the record file with create_new(true): writing a key whose file exists fails, and the failed-write "
+                           "clean-up removes the copy that was there", b, t["l"])
+                elif writes and not whole:
                     okw = False
                     R.viol(pfx + ".whole-file", "no-truncate", "put_verified opens the record file for writing without truncate(true): a shorter overwrite leaves the tail of the old "
                            "version, which fails authentication after a restart (the completed write is lost) or is served mixed", b, t["l"])
     if n < 1:
         okw = False
         R.viol(pfx + ".whole-file", "writer-missing", "no file-writing call found in put_verified")
-    R.inst(pfx + ".whole-file", "K1 forbidden-callee", "record files are replaced whole (fs::write / File::create / OpenOptions with truncate or create_new)", n, okw)
+    R.inst(pfx + ".whole-file", "K1 forbidden-callee", "record files are replaced whole, existing or not (fs::write / File::create / OpenOptions with truncate)", n, okw)
 
     # (2d) file name ↔ key: generate_filename and get_data_from_filename are hex encode / decode of the key bytes
     gf = R.body(pfx + ".filename", NRS + "::generate_filename")
